@@ -87,16 +87,22 @@ Proof. unfold notes_of. apply flat_map_app. Qed.
 Lemma visible_app a b : visible (a ++ b) = visible a ++ visible b.
 Proof. unfold visible. apply flat_map_app. Qed.
 
+(* the only errors the interpreter ever hands to a read-until *)
+Definition env_ok (o : obs) : Prop :=
+  match o with OErr _ e => e = ETimeout \/ e = EConnection \/ e = ETransport | _ => True end.
+
 (* settling notes follows a trace of notes only *)
 Lemma skip_notes_spec cfg R (q : prog R) : forall notes,
   exists tn, residual cfg q tn (fst (skip_notes R q notes))
-             /\ snd (skip_notes R q notes) = notes ++ notes_of tn /\ writes_of tn = [].
+             /\ snd (skip_notes R q notes) = notes ++ notes_of tn /\ writes_of tn = []
+             /\ Forall env_ok tn.
 Proof.
   induction q; intros notes; simpl;
     try (exists []; simpl; rewrite app_nil_r; repeat split; constructor).
-  destruct (IHq (notes ++ [(tag, data)])) as [tn [H1 [H2 H3]]].
-  exists (ONote tag data :: tn). split; [constructor; auto|]. split; auto.
-  rewrite H2. simpl. rewrite <- app_assoc. reflexivity.
+  destruct (IHq (notes ++ [(tag, data)])) as [tn [H1 [H2 [H3 H4]]]].
+  exists (ONote tag data :: tn). split; [constructor; auto|]. split; [|split; auto].
+  - rewrite H2. simpl. rewrite <- app_assoc. reflexivity.
+  - constructor; simpl; auto.
 Qed.
 
 Section Soundness.
@@ -106,25 +112,30 @@ Section Soundness.
   Variable R : Type.
 
   Definition tr_inv (p : prog R) (s : @sys D R) : Prop :=
-    exists t, residual cfg p t (s_pc s) /\ s_wlog s = writes_of t /\ s_notes s = notes_of t.
+    exists t, residual cfg p t (s_pc s) /\ s_wlog s = writes_of t /\ s_notes s = notes_of t
+              /\ Forall env_ok t.
 
   Lemma set_pc_inv (p : prog R) (s : @sys D R) (q : prog R) t :
-    residual cfg p t q -> s_wlog s = writes_of t -> s_notes s = notes_of t ->
+    residual cfg p t q -> s_wlog s = writes_of t -> s_notes s = notes_of t -> Forall env_ok t ->
     tr_inv p (set_pc s q).
   Proof.
-    intros Hr Hw Hn. unfold set_pc.
-    destruct (skip_notes_spec cfg R q (s_notes s)) as [tn [H1 [H2 H3]]].
+    intros Hr Hw Hn He. unfold set_pc.
+    destruct (skip_notes_spec cfg R q (s_notes s)) as [tn [H1 [H2 [H3 H4]]]].
     destruct (skip_notes R q (s_notes s)) as [p' n'] eqn:E. simpl in *.
     exists (t ++ tn). simpl. split; [eapply residual_app; eauto|].
-    rewrite writes_of_app, notes_of_app, H3, app_nil_r, H2, Hn. auto.
+    rewrite writes_of_app, notes_of_app, H3, app_nil_r, H2, Hn. repeat split; auto.
+    apply Forall_app; auto.
   Qed.
 
   Lemma init_inv (p : prog R) d start : tr_inv p (init_sys d start p).
   Proof. unfold init_sys. eapply set_pc_inv with (t := []); simpl; auto. constructor. Qed.
 
+  Lemma env_ok_snoc t o : Forall env_ok t -> env_ok o -> Forall env_ok (t ++ [o]).
+  Proof. intros. apply Forall_app; split; auto. Qed.
+
   Lemma step_inv (p : prog R) s e : tr_inv p s -> tr_inv p (step feed cfg s e).
   Proof.
-    intros [t [Hr [Hw Hn]]].
+    intros [t [Hr [Hw [Hn He]]]].
     assert (Hsame : tr_inv p s) by (exists t; auto).
     destruct e; simpl.
     - (* Rd *)
@@ -136,6 +147,7 @@ Section Soundness.
         * eapply residual_app; eauto. constructor. constructor.
         * simpl. rewrite writes_of_app, Hw. reflexivity.
         * simpl. rewrite notes_of_app, Hn. simpl. rewrite ?app_nil_r; auto.
+        * apply env_ok_snoc; simpl; auto.
       + destruct (s_reader s).
         * destruct (s_queue s) as [|chunk q']; auto.
           destruct (cond_holds cfg c (s_acc s ++ chunk)) eqn:Ec.
@@ -143,25 +155,30 @@ Section Soundness.
              ++ eapply residual_app; eauto. constructor; auto. constructor.
              ++ simpl. rewrite writes_of_app, Hw. simpl. rewrite ?app_nil_r; auto.
              ++ simpl. rewrite notes_of_app, Hn. simpl. rewrite ?app_nil_r; auto.
+             ++ apply env_ok_snoc; simpl; auto.
           -- exists t; simpl. auto.
         * eapply set_pc_inv with (t := t ++ [OErr c EConnection]).
           ++ eapply residual_app; eauto. apply rs_err. constructor.
           ++ simpl. rewrite writes_of_app, Hw. simpl. rewrite ?app_nil_r; auto.
           ++ simpl. rewrite notes_of_app, Hn. simpl. rewrite ?app_nil_r; auto.
+          ++ apply env_ok_snoc; simpl; auto.
         * eapply set_pc_inv with (t := t ++ [OErr c ETransport]).
           ++ eapply residual_app; eauto. apply rs_err. constructor.
           ++ simpl. rewrite writes_of_app, Hw. simpl. rewrite ?app_nil_r; auto.
           ++ simpl. rewrite notes_of_app, Hn. simpl. rewrite ?app_nil_r; auto.
+          ++ apply env_ok_snoc; simpl; auto.
       + eapply set_pc_inv with (t := t ++ [ORequeue b]).
         * eapply residual_app; eauto. constructor. constructor.
         * simpl. rewrite writes_of_app, Hw. simpl. rewrite ?app_nil_r; auto.
         * simpl. rewrite notes_of_app, Hn. simpl. rewrite ?app_nil_r; auto.
+        * apply env_ok_snoc; simpl; auto.
     - (* Deadline *)
       destruct (s_pc s) as [r|e|b red k|c k h|tg d k|b k] eqn:Epc; auto.
       eapply set_pc_inv with (t := t ++ [OErr c ETimeout]).
       ++ eapply residual_app; eauto. apply rs_err. constructor.
       ++ simpl. rewrite writes_of_app, Hw. simpl. rewrite ?app_nil_r; auto.
       ++ simpl. rewrite notes_of_app, Hn. simpl. rewrite ?app_nil_r; auto.
+      ++ apply env_ok_snoc; simpl; auto.
     - exists t; simpl; auto.
     - destruct (s_reader s); auto; exists t; simpl; auto.
   Qed.
@@ -173,6 +190,23 @@ Section Soundness.
   Qed.
 End Soundness.
 
+(* the bridge, with the extra fact that the errors in the trace are the environment's *)
+Theorem run_has_trace_env :
+  forall D (feed : D -> bytes -> D * bytes) cfg R (p : prog R) d start sched,
+    let st := run feed cfg sched (init_sys d start p) in
+    exists t, ptrace cfg p t /\ s_wlog st = writes_of t /\ s_notes st = notes_of t
+              /\ (forall r, outcome st = Some r -> ctrace cfg p t r) /\ Forall env_ok t.
+Proof.
+  intros D feed cfg R p d start sched st.
+  destruct (run_inv D feed cfg R p sched _ (init_inv D cfg R p d start)) as [t [Hr [Hw [Hn He]]]].
+  fold st in Hr, Hw, Hn.
+  exists t. split; [eapply residual_ptrace; eauto|]. split; auto. split; auto. split; auto.
+  intros r Ho. unfold outcome in Ho.
+  destruct (s_pc st) eqn:E; inversion Ho; subst.
+  - apply residual_ret; auto.
+  - apply residual_fail; auto.
+Qed.
+
 Theorem run_has_trace :
   forall D (feed : D -> bytes -> D * bytes) cfg R (p : prog R) d start sched,
     let st := run feed cfg sched (init_sys d start p) in
@@ -180,13 +214,8 @@ Theorem run_has_trace :
               /\ (forall r, outcome st = Some r -> ctrace cfg p t r).
 Proof.
   intros D feed cfg R p d start sched st.
-  destruct (run_inv D feed cfg R p sched _ (init_inv D cfg R p d start)) as [t [Hr [Hw Hn]]].
-  fold st in Hr, Hw, Hn.
-  exists t. split; [eapply residual_ptrace; eauto|]. split; auto. split; auto.
-  intros r Ho. unfold outcome in Ho.
-  destruct (s_pc st) eqn:E; inversion Ho; subst.
-  - apply residual_ret; auto.
-  - apply residual_fail; auto.
+  destruct (run_has_trace_env D feed cfg R p d start sched) as [t [H1 [H2 [H3 [H4 _]]]]].
+  exists t. auto.
 Qed.
 
 (* ====================================================================== *)
@@ -2356,6 +2385,14 @@ Proof.
   cbn [interactive_loop ev_input ev_hidden ev_response]. apply pt_write. apply pt_nil.
 Qed.
 
+Lemma guard_ok_inv_write cfg s e c a b r t :
+  guard_ok cfg s e c a (OWrite b r :: t) ->
+  (b = s /\ a = true /\ r = true /\ guard_ok cfg s e c false t) \/ (b <> s /\ guard_ok cfg s e c false t).
+Proof. inversion 1; subst; auto. Qed.
+Lemma guard_ok_inv_read cfg s e c a cd rb t :
+  guard_ok cfg s e c a (ORead cd rb :: t) -> guard_ok cfg s e c (at_secret_prompt cfg e c rb) t.
+Proof. inversion 1; subst; auto. Qed.
+
 Theorem escalate_guarded_refuted :
   ~ (forall net target p t,
        lookup_level (n_levels net) target = Some p -> lv_escalate_auth p = true ->
@@ -2367,10 +2404,122 @@ Proof.
   assert (G : guard_ok cx_chan cx_secret cx_esc [cx_pat] false cx_trace).
   { apply (Hall cx_net cx_priv cx_level cx_trace); try reflexivity; try discriminate. apply cx_is_trace. }
   unfold cx_trace in G.
-  inversion G as [| | ? ? ? ? _ G1 | | | |]; subst; clear G.
-  inversion G1 as [| | | ? ? ? ? G2 | | |]; subst; clear G1.
-  inversion G2 as [| ? ? _ G3 | ? ? ? ? _ G3 | | | |]; subst; clear G2;
-    inversion G3 as [| | | ? ? ? ? G4 | | |]; subst; clear G3;
-    replace (at_secret_prompt cx_chan cx_esc [cx_pat] cx_buf) with false in G4 by (vm_compute; reflexivity);
-    inversion G4 as [| | ? ? ? ? Hne _ | | | |]; subst; apply Hne; reflexivity.
+  apply guard_ok_inv_write in G. destruct G as [[E _]|[_ G]]; [discriminate|].
+  apply guard_ok_inv_read in G.
+  apply guard_ok_inv_write in G. destruct G as [[E _]|[_ G]]; [discriminate|].
+  apply guard_ok_inv_read in G.
+  replace (at_secret_prompt cx_chan cx_esc [cx_pat] cx_buf) with false in G by (vm_compute; reflexivity).
+  apply guard_ok_inv_write in G. destruct G as [[_ [E _]]|[E _]]; [discriminate|]. apply E; reflexivity.
 Qed.
+
+(* ====================================================================== *)
+(* from traces back to executions: examples of the bridge A in use          *)
+(* ====================================================================== *)
+Lemma count_writes_wlog b t :
+  count_writes b t = length (filter (fun w : bytes * bool => beqb b (fst w)) (writes_of t)).
+Proof.
+  induction t as [|o t IH]; simpl; auto. destruct o; simpl; auto.
+  rewrite IH. destruct (beqb b b0); reflexivity.
+Qed.
+
+Lemma in_writes_of b r t : In (b, r) (writes_of t) <-> In (OWrite b r) t.
+Proof.
+  induction t as [|o t IH]; [simpl; tauto|].
+  change (writes_of (o :: t)) with ((match o with OWrite b r => [(b, r)] | _ => [] end) ++ writes_of t).
+  rewrite in_app_iff, IH. simpl In at 2.
+  destruct o; simpl; split; intros [H|H]; auto; try contradiction; try discriminate.
+  - destruct H as [H|[]]. inversion H; auto.
+  - inversion H; auto.
+Qed.
+
+(* whatever the device does and however the goroutines interleave, the ssh login writes the
+   password at most [password_seen_max] times, the passphrase at most [passphrase_seen_max] times,
+   and everything it writes except the return is redacted *)
+Theorem run_auth_ssh_bounds :
+  forall D (feed : D -> bytes -> D * bytes) cfg ap pw pp d start sched,
+    pw <> c_ret cfg -> pp <> c_ret cfg -> pw <> pp ->
+    let st := run feed cfg sched (init_sys d start (auth_ssh cfg ap pw pp)) in
+    (length (filter (fun w : bytes * bool => beqb pw (fst w)) (s_wlog st)) <= password_seen_max)%nat
+    /\ (length (filter (fun w : bytes * bool => beqb pp (fst w)) (s_wlog st)) <= passphrase_seen_max)%nat
+    /\ (forall b r, In (b, r) (s_wlog st) -> b <> c_ret cfg -> r = true).
+Proof.
+  intros D feed cfg ap pw pp d start sched H1 H2 H3 st.
+  destruct (run_has_trace D feed cfg _ (auth_ssh cfg ap pw pp) d start sched) as [t [Hp [Hw _]]].
+  fold st in Hw. rewrite Hw.
+  destruct (auth_ssh_bounds cfg ap pw pp t H1 H2 H3 Hp) as [A [B C]].
+  rewrite <- !count_writes_wlog. repeat split; auto.
+  intros b r Hin Hb. apply in_writes_of in Hin. eapply C; eauto.
+Qed.
+
+(* every callback recorded in the log of a run had its trigger true on the buffer it was given,
+   and no earlier callback's trigger held *)
+Theorem run_callbacks_fire_right :
+  forall D (feed : D -> bytes -> D * bytes) cfg input cbs d start sched,
+    let st := run feed cfg sched (init_sys d start (send_with_callbacks cfg input cbs)) in
+    Forall (fun nt => fst nt = TAG_CB -> cb_note_ok cbs (snd nt)) (s_notes st).
+Proof.
+  intros D feed cfg input cbs d start sched st.
+  destruct (run_has_trace D feed cfg _ (send_with_callbacks cfg input cbs) d start sched) as [t [Hp [_ [Hn _]]]].
+  fold st in Hn. rewrite Hn. apply callbacks_fire_right with (cfg := cfg) (input := input). exact Hp.
+Qed.
+
+(* a finished operation that met a deadline reports a timeout — in every execution *)
+Theorem run_timeout_is_timeout :
+  forall D (feed : D -> bytes -> D * bytes) p cfg d start sched,
+    chan_op p cfg ->
+    let st := run feed cfg sched (init_sys d start p) in
+    exists t, s_wlog st = writes_of t /\
+      forall r, outcome st = Some r -> forall c, In (OErr c ETimeout) t ->
+        r = inr ETimeout /\ exists t0, t = t0 ++ [OErr c ETimeout].
+Proof.
+  intros D feed p cfg d start sched Hp st.
+  destruct (run_has_trace D feed cfg _ p d start sched) as [t [_ [Hw [_ Hc]]]].
+  fold st in Hw, Hc. exists t. split; auto. intros r Ho c Hin.
+  eapply timeout_is_timeout; eauto.
+Qed.
+
+Print Assumptions run_has_trace_env.
+Print Assumptions sim_trace.
+Print Assumptions sim_run_sfeed.
+Print Assumptions sim_escalate.
+Print Assumptions sim_acquire_priv.
+Print Assumptions sim_net_send_command.
+Print Assumptions sim_channel_open_ssh.
+Print Assumptions sim_channel_open_telnet.
+Print Assumptions sim_send_interactive.
+Print Assumptions secret_absent.
+Print Assumptions escalate_guarded.
+Print Assumptions escalate_guarded_partial.
+Print Assumptions escalate_guarded_refuted.
+Print Assumptions escalate_secret_only_at_prompt.
+Print Assumptions send_input_return_after_echo.
+Print Assumptions return_after_echo.
+Print Assumptions interactive_paced.
+Print Assumptions cb_check_is_spec.
+Print Assumptions first_firing_spec.
+Print Assumptions first_firing_none.
+Print Assumptions callbacks_fire_right.
+Print Assumptions callbacks_once.
+Print Assumptions callbacks_complete.
+Print Assumptions callbacks_timeout.
+Print Assumptions auth_ssh_bounds.
+Print Assumptions auth_telnet_bounds.
+Print Assumptions auth_ssh_answers.
+Print Assumptions auth_ssh_password_answers.
+Print Assumptions auth_ssh_passphrase_answers.
+Print Assumptions auth_telnet_answers.
+Print Assumptions auth_outcomes.
+Print Assumptions auth_outcome_ok.
+Print Assumptions auth_outcome_auth.
+Print Assumptions auth_outcome_connection.
+Print Assumptions channel_open_requeues_ssh.
+Print Assumptions get_timeout_precedence.
+Print Assumptions timeout_is_timeout.
+Print Assumptions error_is_final.
+Print Assumptions implicit_acquire_failure_is_privilege.
+Print Assumptions loss_is_error.
+Print Assumptions loss_under_acquire_default.
+Print Assumptions net_send_command_errors.
+Print Assumptions run_auth_ssh_bounds.
+Print Assumptions run_callbacks_fire_right.
+Print Assumptions run_timeout_is_timeout.
